@@ -19,6 +19,8 @@ def attribute(run, line, verdict):
     if line:
         ev = evs[line - 1]
         k = ev.get("e")
+        if ev.get("self", 1) != 1:
+            return "C11"          # a running unit reads a state other than RUNNING for itself
         if k in ("Ctx", "Overlap") or (k == "Start" and ev.get("sp16", 0) != 0):
             return "C02"          # registers / FP control state / stack alignment
         if k == "Ledger":
